@@ -885,6 +885,36 @@ def r9(F, R):
             R.check(not bad, f"terminal/erases-pending-lines/{kind}::{sub}", bad[0] if bad else printers[nm], "every write is preceded by the erasure of the transient lines",
                     f"`{printers[nm].short.rsplit('::', 1)[-1]}` writes the {kind} {sub} result without first erasing the transient lines (pending `Started` line, logs): "
                     f"with colours on the step is shown twice and the stale line count later erases lines that were real")
+    # what is kept for re-output after an erasure is exactly what was written: in every routine that appends to the re-output buffer (the
+    # String the eraser writes out again and clears), the texts appended are, in order, the texts written to the output — the same terms, so
+    # that a newline added on one side only (`write_line` here, `write_str` of the buffer there) shows as a difference
+    clears = [t for _, t in er.calls(lambda t: callee_is(t, r"String::clear$"))]
+    bufs = set()
+    for t in clears:
+        for o, n_ in A.slice_back(er, [t["args"][0]]).fields:
+            if o == BA:
+                bufs.add(n_)
+    if len(bufs) != 1:
+        raise Unverifiable(f"terminal writer: re-output buffer of the eraser: {sorted(bufs)}")
+    buf = bufs.pop()
+    bidx = [i for i, f_ in enumerate(F.adt(BA)["variants"][0]["fields"]) if f_["name"] == buf][0]
+    n_buf = 0
+    for rb in owns:
+        if rb is er or not any(callee_is(t, r"String::push_str$") and (BA, buf) in A.slice_back(rb, [t["args"][0]]).fields for _, t in rb.calls()):
+            continue
+        n_buf += 1
+        prow = D.Deep(F, rb, max_paths=100).run()
+        okb, whyb = bool(prow) and not any(p.cut for p in prow), "empty table or a loop"
+        for p in prow:
+            pushed = [_norm(e[2][1]) for e in p.effects if e[0] == "call" and re.search(r"String::push_str$", e[1]) and D.mentions(e[2][0], lambda y: isinstance(y, tuple) and len(y) == 3 and y[0] == "field" and y[2] == bidx)]
+            written = [_norm(e[2][1]) for e in p.effects if e[0] == "call" and re.search(r"io::Write::write_all$", e[1])]
+            unb = lambda x: x[2][0] if isinstance(x, tuple) and len(x) == 4 and x[0] == "call" and re.search(r"(str|String)(::)+as_bytes$", x[1]) and len(x[2]) == 1 else x
+            written = [unb(x) for x in written]
+            if pushed != written:
+                okb, whyb = False, f"written {[D.fmt(rb, x)[:30] for x in written]} but kept for re-output {[D.fmt(rb, x)[:30] for x in pushed]}"
+        R.check(okb, f"terminal/re-output-mirrors-output/{rb.short.rsplit('::', 1)[-1]}", rb, "the text kept for re-output is the text written",
+                f"`{rb.short.rsplit('::', 1)[-1]}`: {whyb}: after the next erasure the line is re-printed differently (a lost newline glues the following line to it)")
+    R.check(n_buf >= 1, "terminal/re-output-mirrors-output/routines", er, f"{n_buf} routine(s) append to the re-output buffer", "no routine appends to the re-output buffer")
     # background steps are told apart from the scenario's own steps by the marker after the status glyph (`✔> ` / `?> ` / `✘> ` against
     # `✔  ` / `?  ` / `✘  `): every line template of a Background result printer that carries a glyph carries `>`, none of a Step printer does
     import ast
@@ -919,7 +949,7 @@ def r9(F, R):
     R.check(n_er >= 7, "terminal/erases-pending-lines/routines", disp, f"{n_er} result-printing routines", f"only {n_er} result-printing routines found")
     want = {(k, s1) for k in ("Background", "Step") for s1 in ("Started", "Passed", "Skipped", "Failed")} | {("Hook", "Started"), ("Hook", "Passed"), ("Hook", "Failed"), ("Log", None), ("Started", None), ("Finished", None)}
     R.check(want <= set(seen), "terminal/table-complete", disp, f"{len(seen)} event shapes", f"rows missing from the terminal writer's table: {sorted(map(str, want - set(seen)))[:4]}")
-    R.floor(26)
+    R.floor(28)
 
 
 # ---- R10: Cucumber JSON — an entry created for a key is found again by the look-up (constructor / comparator agreement) ------
